@@ -158,6 +158,67 @@ func checkC02(c *vkit.Ctx) {
 		in := map[string]any{"api": api, "stored": stored.S, "received": received.S, "edit": edit, "mode": om.Name, "no_color": noColor}
 		c.Guard(in, func() { runC02(c, api, stored, received, edit, om, noColor, in) })
 	}
+	// values of several MiB (generated artefacts kept as standalone snapshots, large entries):
+	// a single byte changes near the end, near a 1/4/8 MiB boundary or in the middle
+	nb := c.N(8, 96)
+	for j := 0; j < nb; j++ {
+		i := 90000000 + j
+		if !c.Mine(i) {
+			continue
+		}
+		r := c.Rand("big", j)
+		api := []string{"ssnap", "ssnap", "sjson", "snap"}[r.IntN(4)]
+		size := []int{1<<20 + 5, 4<<20 + 1, 4<<20 + 12345, 5<<20 + 7, 8<<20 + 100, 8 << 20, 3<<20 + 17}[r.IntN(7)]
+		var sb strings.Builder
+		if api == "sjson" {
+			sb.WriteString("[")
+			for k := 0; sb.Len() < size; k++ {
+				if k > 0 {
+					sb.WriteString(",")
+				}
+				fmt.Fprintf(&sb, `"element %08d of a large generated document"`, k)
+			}
+			sb.WriteString("]")
+		} else {
+			for k := 0; sb.Len() < size; k++ {
+				fmt.Fprintf(&sb, "line %08d of a large generated artefact, sixty-four bytes\n", k)
+			}
+		}
+		s := sb.String()
+		b := []byte(s)
+		var at int
+		switch r.IntN(4) {
+		case 0:
+			at = len(b) - 3 // the last digit / letter
+		case 1:
+			at = (len(b) / (4 << 20)) * (4 << 20) // first byte after the last full 4 MiB
+			if at >= len(b)-2 || at == 0 {
+				at = len(b) / 2
+			}
+		case 2:
+			at = len(b) - 1 - r.IntN(4096)
+		default:
+			at = r.IntN(len(b))
+		}
+		for b[at] < 'a' || b[at] > 'z' {
+			at--
+		}
+		if b[at] == 'q' {
+			b[at] = 'j'
+		} else {
+			b[at] = 'q'
+		}
+		kind := "str"
+		if api == "sjson" {
+			kind = "json"
+		}
+		om := modes[r.IntN(len(modes))]
+		edit := fmt.Sprintf("one-byte-change-at-%d-of-%d", at, len(b))
+		in := map[string]any{"api": api, "size": len(b), "edit": edit, "mode": om.Name}
+		stored, received := Val{Kind: kind, S: s, Form: "string"}, Val{Kind: kind, S: string(b), Form: "string"}
+		c.Guard(in, func() { runC02(c, api, stored, received, edit, om, true, in) })
+		c.Count("pairs_of_several_MiB", 1)
+	}
 }
 
 func runC02(c *vkit.Ctx, api string, stored, received Val, edit string, om offMode, noColor bool, in map[string]any) {
